@@ -39,6 +39,21 @@ META = {'design_ref': 'DESIGN.md section 7 / C02',
                'any call sequence that finishes emits exactly flatten steps), and per packet kind and protocol version: valid packet -> the encoder succeeds '
                'and the independent reference decoder returns the canonical form of the packet with no bytes left. SUBSCRIBE (MQTT5) with a subscription '
                'identifier was refuted on the code before /repo commit d62c54a (D3) and is proved for the repaired encoder. The model is run against the '
-               "crate's encoder on generated packets on every check.",
+               "crate's encoder on generated packets on every check. RUN-LEVEL, byte stream of a connection (C02_run_wire_*, C02_instance_wire_*; "
+               'EngineProofs/WireRun*.v; hypotheses comps_ok - discharged for the concrete engine -, ok_cfg, ok_event only): the service loop is instrumented '
+               'with the alias log of C17 interleaved with the bytes every single Encoder::encode call returned, proved equal to the model (same result, same '
+               'alias events, byte events = emitted bytes: C02_wire_loop_*, C02_wire_log_*); for every event history and every connection of it, the bytes '
+               'emitted since the EvOpen are the concatenation of the COMPLETE encodings (impl_encode_all = flatten of impl_steps, proved error-free) of the '
+               'packets whose encoder was constructed on this connection and ran to completion, in construction order - exactly the successful enc_reset '
+               'calls of the alias log followed by ODone -, followed by a PREFIX of the encoding of the packet the encoder currently holds (empty if none): '
+               'nothing else is ever emitted, two packets are never interleaved, nothing is emitted before the first open, and a packet interrupted by a '
+               'close is never continued on the next connection (its stream starts empty; witness C02_wire_example_connection2: the operation is re-encoded '
+               'from its first byte). With the per-kind theorems (C02_all_kinds, C02_spec_decode_on_stream, C02_stream_decodes): if every (packet, resolution) '
+               'an encoder was constructed for on the connection satisfies ValidC2S.valid, the specification decoder, iterated, reads the completed part of '
+               'the stream back as exactly the canonical forms of those packets, in order, nothing left over (C02_instance_wire_decodes). NOT proved: that '
+               'validation implies ValidC2S.valid (C16 proves soundness against the independent predicate conforms, not against valid; the CONNECT is never '
+               'validated in the crate, D17), so validity of the seated packets is a hypothesis of the decoding corollary; the stream theorem itself has no '
+               'such hypothesis. The stream theorem is about the model the correspondence check executes; that the implementation emits the same bytes stays '
+               "the lock-step tie (field out) and monitor 201.",
  'technique': 'machine-checked proof in Coq (round-trip lemmas per wire primitive composed per packet; induction over step lists) + differential '
               'correspondence of the extracted model with the implementation, reference decoder as monitor'}
